@@ -40,6 +40,16 @@ CLAIMED = {
         technique="Lean 4 proof (case analysis + induction over frame sequences against an abstract acceptor) + exhaustive differential vs real frame_received",
         note="Transport assumed open (a closed transport makes _write_frame raise; modelled as an explicit `raised` event). ",
     ),
+    "C05": dict(
+        text="Model of send_data/_send_data_frame at settled loop states (semaphore of TX_K, attempt loop with FAILED gate, frmNum taken once, fresh ackNum, ack future with asyncio.timeout, NotAcked/NcpFailure/TimeoutError/success branches with the t_rx_ack updates, finally-pop, _enter_failed_state) on top of the C04 receiver model, "
+        "with events {send, frame, timer expiry, frame racing the timer in one loop iteration, two frames in one read, clock advance, caller cancellation}. Theorems: clamp bound T_MIN ≤ t ≤ T_MAX for every argument; an inductive invariant over every event list "
+        "(timeout within bounds, attempts < ACK_TIMEOUTS, armed deadline = clamped timeout after the last transmission); shape of every (re)transmission (same frmNum/payload, reTx exactly on repeats, current rx_seq); budget exhaustion ⇒ exactly one upward notification with the ack-timeout code, link FAILED, the send and all queued sends fail; "
+        "while FAILED a new send fails at once and writes nothing; a second send waits while the slot is held; first transmissions take consecutive tx_seq mod 8. Tie: generated ACK_TIMEOUTS/T_RX_ACK_*/TX_K + the real AshProtocol on a deterministic virtual-time loop: every reaction word ≤ 4 (6 thorough) over seven peer reactions, all pairs of frames batched in one read, random long words with queued sends and cancellations; "
+        "model compared at every settled state (bytes, outcomes, counters, timeout value, outstanding frame), oracle on an independently decoded wire trace.",
+        ref="6 C05",
+        technique="Lean 4 proof (inductive invariant over event lists, per-branch specifications) + exhaustive/random differential vs real send_data on a virtual-time loop",
+        note="Granularity is settled loop states plus two batched cases (ACK-vs-timeout race, two frames in one read); wall-clock drift is not modelled. ",
+    ),
     "C15": dict(
         text="Inductive invariant (groups distinct; every host entry programmed non-zero at its index; every free index cleared; free ∪ used covers the table) proved for every "
         "operation sequence over {start-up, subscribe, unsubscribe}, every table size, every initial table with each group at most once, every answer {OK, rejection, timeout} and every "
